@@ -232,7 +232,45 @@ pub fn gen_inventory(repo: &str) -> String {
         panic_sites.into_iter().partition(|s| s.contains("::cast:") || s.contains("::call:parse#"));
     o.push_str(&list("panicSites", &panic_sites));
     o.push_str(&list("castSites", &cast_sites));
+    // per (file, kind) counts: a refactor that moves a site into a helper function changes the site's name, not
+    // the number of sites of that kind in the file
+    let mut counts: BTreeMap<(String, String), usize> = BTreeMap::new();
+    for s in &panic_sites {
+        let parts: Vec<&str> = s.splitn(3, "::").collect();
+        let file = parts[0].to_string();
+        let kind = s.rsplit("::").next().unwrap_or("").split('#').next().unwrap_or("").to_string();
+        // `x = x + 1` and `x += 1`, `unwrap()` and `expect(..)` are the same site written differently
+        let kind = if kind.starts_with("arith:") {
+            "arith".to_string()
+        } else if kind == "call:unwrap" || kind == "call:expect" {
+            "unwrap".to_string()
+        } else {
+            kind
+        };
+        // kinds such as `call:unwrap` contain `::`-free text; `fs::read_dir` style kinds only occur among effects
+        *counts.entry((file, kind)).or_insert(0) += 1;
+    }
+    o.push_str(&format!(
+        "def panicSiteCounts : List (String × String × Nat) := [\n{}]\n\n",
+        counts.iter().map(|((f, k), n)| format!("  ({}, {}, {})", lean_str(f), lean_str(k), n)).collect::<Vec<_>>().join(",\n")
+    ));
     o.push_str(&list("effectSites", &effect_sites));
+    // (file, call) of every effect site, whatever function it sits in
+    let mut calls: Vec<(String, String)> = effect_sites
+        .iter()
+        .map(|s| {
+            let mut it = s.splitn(3, "::");
+            let file = it.next().unwrap_or("").to_string();
+            let _func = it.next();
+            let call = it.next().unwrap_or("").split('#').next().unwrap_or("").to_string();
+            (file, call)
+        })
+        .collect();
+    calls.sort();
+    o.push_str(&format!(
+        "def effectCalls : List (String × String) := [\n{}]\n\n",
+        calls.iter().map(|(f, c)| format!("  ({}, {})", lean_str(f), lean_str(c))).collect::<Vec<_>>().join(",\n")
+    ));
     o.push_str(&list("globalSites", &global_sites));
     o.push_str(&list("inventoryResidue", &residue));
     o.push_str("end Solstat.Gen\n");
